@@ -8,6 +8,11 @@ mod hc_hostile;
 mod hc_script;
 mod tfrc;
 mod codec;
+mod alloc;
+mod alloc_run;
+
+#[global_allocator]
+static GLOBAL: alloc::Recorder = alloc::Recorder;
 mod sess;
 mod sess_random;
 
@@ -139,6 +144,18 @@ fn main() {
         }
         "crc-extract" => {
             codec::crc_extract(&out);
+        }
+        "alloc" => {
+            let seed = geti(&m, "seed", 1);
+            let runs = geti(&m, "runs", 10);
+            let start = geti(&m, "start", 0);
+            let mut tr = Trace::create(&out);
+            for i in start..start + runs {
+                progress(&progress_path, &format!("{}", i));
+                alloc_run::run_alloc(&mut tr, i, mix(seed ^ 0xA110C, i));
+            }
+            progress(&progress_path, "done");
+            eprintln!("alloc: runs={} lines={}", runs, tr.lines);
         }
         "sess-random" => {
             let seed = geti(&m, "seed", 1);
